@@ -2,6 +2,12 @@ import ParryModel.C17.Theorems
 #print axioms C17.aabb_split_positive_iff
 #print axioms C17.aabb_split_negative_iff
 #print axioms C17.aabb_split_pair_spec
+#print axioms C17.segment_split_negative
+#print axioms C17.segment_split_positive
+#print axioms C17.segment_split_pair
+#print axioms C17.segment_split_negative_of_side
+#print axioms C17.segment_split_positive_of_side
+#print axioms C17.segment_split_pair_of_sides
 #print axioms C17.aabb_difference_spec
 #print axioms C17.clip_aabb_line_some
 #print axioms C17.clip_aabb_line_none
